@@ -190,6 +190,10 @@ def gen_case(rng, nprng, t, nmax):
         kind = rng.choice(["full", "full", "lowrank", "diag", "zero"])
         cov_model = rand_psd(nprng, n, np.abs(magm) * nprng.uniform(0.05, 0.3, n), kind)
         cov_amp = rand_pd(nprng, n, amp * np.abs(magm) * nprng.uniform(0.02, 0.2, n))
+        if rng.random() < 0.3:
+            # independent photometric errors (diagonal measurement covariance) with a correlated model covariance:
+            # the structure of the COMBINED covariance decides, not that of one summand
+            cov_amp = np.diag(np.diag(cov_amp))
         tot = cov_amp + amp ** 2 * cov_model
         meas = amp * magm + np.linalg.cholesky(tot) @ nprng.normal(size=n) * rng.choice([0.0, 1.0, 1.0, 3.0])
         c["ctor"] = {"amp_measured": meas.tolist(), "cov_amp_measured": cov_amp.tolist(),
@@ -222,6 +226,10 @@ def gen_case(rng, nprng, t, nmax):
             meas = magm + mu + nprng.normal(0, 0.1, namp)
             cov_amp = rand_pd(nprng, namp, nprng.uniform(0.02, 0.2, namp), cond_max=1e3)
             mscale = nprng.uniform(0.05, 0.3, namp)
+        if rng.random() < 0.3:
+            # diagonal measurement covariances with a correlated model covariance
+            cov_td = np.diag(np.diag(cov_td))
+            cov_amp = np.diag(np.diag(cov_amp))
         cov_model = rand_psd(nprng, ntd + namp,
                              np.concatenate([np.abs(fermat) * nprng.uniform(0.01, 0.1, ntd), mscale]), kind)
         c["ctor"] = {"time_delay_measured": td.tolist(), "cov_td_measured": cov_td.tolist(),
